@@ -548,7 +548,7 @@ class ActObs:
         self.ctx_ref = ctx_ref
         self.prices_of = prices_of
         self.n_ok = self.n_rej = 0
-        self.closed_cash_moves = 0
+        self.end_state = {}
 
     def _run_op(self, strat, phase, op):
         res = Dr.call_op(op.fn)
@@ -596,6 +596,8 @@ class ActObs:
 
     def after_bar(self, strat, snap):
         self._phase(strat, snap, "after_bar")
+        # the holdings at the end of the bar (nothing may move between here and the status of this bar)
+        self.end_state[TS(snap.timestamp)] = read_state(strat.broker)
 
     def trigger(self, strat, snap):
         self._phase(strat, snap, "trigger")
@@ -973,6 +975,12 @@ def act_case(mon, rng, c, mix):
             mon.cls("init-status-not-checked(frame starts before the data)")
             continue
         ctx.trace = rec["trace"]
+        if k > 0:
+            mon.ev()
+            if obs.end_state.get(ts) != rec["state"]:
+                mon.violation("actuator", "bar-end", "status-not-of-bar-end-holdings", "after_bar",
+                              f"the status of bar {ts} was computed on holdings that differ from those at the end of after_bar ({mix}): "
+                              f"{Dr.diff_proj(rec['state'], obs.end_state.get(ts))[:4]}", {"mix": mix, "info": ctx.info})
         evaluate(ctx, rec["status"], rec["state"], ts, op)
         if k > 0:
             bars += 1
